@@ -268,27 +268,35 @@ def _err_agg(case):
     a = case.get('args', [])
     call = case.get('call', '')
     if call in ('sumifs', 'averageifs', 'maxifs', 'minifs'):
-        rng = a[0]
+        rng, rs, cs = a[0], list(a[1::2]), list(a[2::2])
     elif call in ('sumif', 'averageif'):
-        rng = a[2] if len(a) > 2 and a[2] is not None else a[0]
+        rng, rs, cs = (a[2] if len(a) > 2 and a[2] is not None else a[0]), [a[0]], [a[1]]
     else:
         return False
-    return any(isinstance(x, str) and x in ERRORS for x in _cells(rng))
+    try:
+        must, may = spec_select(rs, cs)
+        return any(isinstance(rng[r][c], str) and rng[r][c] in ERRORS for r, c in must + may)
+    except (IndexError, TypeError):
+        return False
 
 
 @known_predicate('C15-python-numeric-text')
 def _py_numtext(case):
     """inf / nan / digit-group underscores: text that float() accepts is read as a number."""
     rs, cs = _pairs(case)
+
+    def numeric_crit(c):
+        return (isinstance(c, (int, float)) and not isinstance(c, bool)) or \
+            (isinstance(c, str) and dec_number(split_op(c)[1]) is not None)
     return any(python_only_number(split_op(c)[1]) for c in cs if isinstance(c, str)) or \
-        any(python_only_number(x) for r in rs for x in _cells(r))
+        any(numeric_crit(c) and any(python_only_number(x) for x in _cells(r)) for r, c in zip(rs, cs))
 
 
 @known_predicate('C15-tilde-escape')
 def _tilde(case):
     """~? ~* ~~ are not treated as literal characters."""
     rs, cs = _pairs(case)
-    return any(isinstance(c, str) and '~' in c for c in cs)
+    return any(isinstance(c, str) and re.search(r'~[?*~]', c) for c in cs)
 
 
 @known_predicate('C15-regex-meta-in-wildcard')
